@@ -75,6 +75,9 @@ type authScenario struct {
 	Want  bool     `json:"want"`
 	NoEsc bool     `json:"noesc"`
 	Fam   string   `json:"fam"`
+	// Variant, when present, fixes the concretisation variant (ladder, ID shapes) so that a recorded call
+	// can be re-executed identically.
+	Variant *int `json:"variant,omitempty"`
 }
 
 // ladders realise ranks 0..4 as concrete levels; rank 1 is always 0 and rank 3 always 50.
@@ -224,7 +227,15 @@ func (a authIDs) id(tag string) string {
 // concretise builds the provider events and the judged event.
 func concretise(sc *authScenario, variant int) (*concreteAuth, error) {
 	ver := sc.Ver
+	if sc.Variant != nil {
+		variant = *sc.Variant
+	}
 	lad := ladders[((variant%len(ladders))+len(ladders))%len(ladders)]
+	if !sc.St.PL.Present && lad[4] == 9007199254740991 {
+		// without a power_levels event the create sender implicitly holds 2^53-1 (departure A2); keep the
+		// ladder's top rank distinct from that level so that ranks stay faithful
+		lad[4] = 9007199254740990
+	}
 	ids := newAuthIDs(ver)
 	var events []gmsl.PDU
 	st := &sc.St
@@ -365,6 +376,9 @@ func concretise(sc *authScenario, variant int) (*concreteAuth, error) {
 		case "self":
 			return strp(sender)
 		case "other_user":
+			if ev.Sender == "carol" {
+				return strp(userIDs["bob"])
+			}
 			return strp(userIDs["carol"])
 		case "server_self":
 			return strp(domainOf(ev.Sender))
